@@ -9,9 +9,12 @@ What is within reach of contracts on repository code, and what is not (DESIGN 0.
                    (C15 proves the shorthand then joins every required relationship once)
    The path a/b/c arrives left-nested and a lambda's owner receives the whole path: C05 / C10 production contracts.
    The lambda body is made relative to its variable by expression_relative_to_identifier = reroot: C17.
- Out of reach, bounded only:  visit_CollectionLambda of both back ends (Django walks model meta in reverse_relationship and
-   builds correlated sub-querysets; SQLAlchemy inspects relationship properties and instantiates a sub-visitor) and, above all,
-   what the ORMs' compilers and SQLite make of the expressions (join kind, join promotion under `or`, EXISTS correlation).
+                   SQLAlchemy ORM visit_CollectionLambda :  xs/any() -> visit(xs).any(None);  xs/any(x: p) -> visit(xs).any(V'(reroot(x, p)));
+                   xs/all(x: p) -> ~visit(xs).any(~V'(reroot(x, p)))   with V' a visitor for the class the relationship points to
+                   (the relative body is C17's reroot, the sub-visitor's translation is the same `visit`, both opaque here)
+ Out of reach, bounded only:  Django's visit_CollectionLambda (it walks model meta in reverse_relationship and introspects Django
+   expression objects in _attempt_keywordify) and, above all, what the ORMs' compilers and SQLite make of the expressions (join
+   kind, join promotion under `or`, EXISTS correlation).
  Layer 2 (bounded, labelled, never counted)
    a three-table object graph (Author 1-* Post 1-* Comment, NULL foreign keys, empty collections, shared parents) generated
    from VERIF_SEED; filters over to-one paths up to depth 2, any(), any(x: p), all(x: p), nested lambdas, combined with
@@ -49,7 +52,7 @@ FILTERS = {
 
 
 def families(facts):
-    return ["path[django]", "path[sa_orm]", "bounded.semantics[django]", "bounded.semantics[sa_orm]", "canary"]
+    return ["path[django]", "path[sa_orm]", "lambda[sa_orm]", "bounded.semantics[django]", "bounded.semantics[sa_orm]", "canary"]
 
 
 def is_visit_of(v, term):
@@ -164,6 +167,120 @@ def run_path(facts, bkey, tier):
     return out
 
 
+def run_lambda_sa(facts, tier):
+    """SQLAlchemy-ORM visit_CollectionLambda, with the relative body (C17's reroot) and the sub-visitor's translation as opaque
+    terms:   xs/any()        ->  visit(xs).any(None)
+             xs/any(x: p)    ->  visit(xs).any(V'(reroot(x, p)))        V' = a visitor for the class the relationship points to
+             xs/all(x: p)    ->  ~ visit(xs).any(~ V'(reroot(x, p)))    (all = no related row fails p; true for an empty collection)"""
+    from vc.propkit import explore, src_of
+    from vc.speclib import fresh_node
+    from vc.symexec import FuncRef
+    t0 = time.time()
+    c = Q.build(facts)
+    E, U = c["E"], c["U"]
+    bkey = "sa_orm"
+    cls = O.BACKENDS[bkey]
+    O.install(c, bkey)
+    saved = dict(E.contracts)
+
+    def k_rel(E_, path, fref, args, kwargs):
+        return ExtVal("reroot", list(args))
+    base_visit = E.contracts[cls + ".visit"]
+
+    def k_visit(E_, path, fref, args, kwargs):
+        if isinstance(args[1], ExtVal) and args[1].name == "reroot":
+            return ExtVal("subvisit", [args[0].attrs.get("root_model"), args[1]])
+        return base_visit(E_, path, fref, args, kwargs)
+    E.contracts["odata_query.utils.expression_relative_to_identifier"] = k_rel
+    for qn in ("odata_query.visitor.NodeVisitor.visit", cls + ".visit"):
+        E.contracts[qn] = k_visit
+    cf = facts.classes[cls]
+    m = cf["members"]["visit"]
+    handler = cf["members"]["visit_CollectionLambda"]
+    holder = {}
+
+    def runner(path):
+        nd, consts = fresh_node(E, path, "CollectionLambda")
+        holder["node"] = nd
+        path.assume(c["shape"](nd))
+        self_obj = O.make_self(c, bkey)
+        path.ghost["node_under_check"] = nd
+        return E.run_function(path, FuncRef(m, defcls=m["definer"]), [self_obj, Sym(nd)], self_val=self_obj)
+    try:
+        rs = explore(E, runner)
+    finally:
+        E.attr_models.pop(("*", "*"), None)
+        E.contracts.clear()
+        E.contracts.update(saved)
+    node = holder.get("node")
+    out = []
+    name = f"C04:{bkey}:{handler['qualname']}[CollectionLambda]:post.template"
+    fld = U.field
+    owner = fld("CollectionLambda", "owner", node)
+    lam = fld("CollectionLambda", "lambda_", node)
+
+    def method(v, recv_ok, meth):
+        return isinstance(v, ExtVal) and v.name == "<call>" and v.args and isinstance(v.args[0], ExtVal) and v.args[0].name == "getattr" \
+            and len(v.args[0].args) == 2 and v.args[0].args[1] == meth and recv_ok(v.args[0].args[0]) and not v.kwargs
+
+    def sub_ok(v):
+        """V'(reroot(x, p)) for the class the relationship points to"""
+        if not (isinstance(v, ExtVal) and v.name == "subvisit" and len(v.args) == 2):
+            return False
+        model, body = v.args
+        cur = model
+        for want in ("class_", "entity", "property"):
+            if not (ext(cur, "getattr", 2) and cur.args[1] == want):
+                return False
+            cur = cur.args[0]
+        if not (ext(cur, "inspect", 1) and is_visit_of(cur.args[0], owner)):
+            return False
+        if not (isinstance(body, ExtVal) and body.name == "reroot" and len(body.args) == 2):
+            return False
+        x, p = body.args
+        return isinstance(x, Sym) and z3.simplify(x.term).eq(z3.simplify(fld("Lambda", "identifier", lam))) \
+            and isinstance(p, Sym) and z3.simplify(p.term).eq(z3.simplify(fld("Lambda", "expression", lam)))
+    n_ret = 0
+    for i, (path, oc) in enumerate(rs):
+        if oc[0] == "unsupported":
+            out.append({"name": name.replace("post.template", "unsupported"), "clause": "unsupported", "status": "undecided", "seconds": 0.0,
+                        "reason": oc[1], "source": src_of(handler), "path": i})
+            continue
+        if oc[0] != "return":
+            continue
+        n_ret += 1
+        v = oc[1]
+        is_any = path.entails(U.is_kind("Any", fld("CollectionLambda", "operator", node)))
+        is_all = path.entails(U.is_kind("All", fld("CollectionLambda", "operator", node)))
+        has_lambda = path.entails(U.is_kind("Lambda", lam))
+        no_lambda = path.entails(z3.Not(U.is_node(lam)))
+        recv_ok = lambda r: is_visit_of(r, owner)
+        if is_any and no_lambda:
+            ok = method(v, recv_ok, "any") and len(v.args) == 2 and v.args[1] is None
+            want = "visit(xs).any(None)"
+        elif is_any and has_lambda:
+            ok = method(v, recv_ok, "any") and len(v.args) == 2 and sub_ok(v.args[1])
+            want = "visit(xs).any(V'(reroot(x, p)))"
+        elif is_all and has_lambda:
+            ok = ext(v, "invert", 1) and method(v.args[0], recv_ok, "any") and len(v.args[0].args) == 2 and ext(v.args[0].args[1], "invert", 1) \
+                and sub_ok(v.args[0].args[1].args[0])
+            want = "~visit(xs).any(~V'(reroot(x, p)))"
+        elif is_all and no_lambda:
+            ok = ext(v, "invert", 1) and method(v.args[0], recv_ok, "any") and len(v.args[0].args) == 2 and v.args[0].args[1] is None
+            want = "~visit(xs).any(None)   (not produced by the grammar)"
+        else:
+            ok, want = False, "operator / lambda presence not determined on this path"
+        r = {"name": name, "clause": "post.template", "status": "discharged" if ok else "refuted", "seconds": time.time() - t0,
+             "backend": "pyvc (term comparison)", "reason": f"the term is {want}" if ok else f"the handler builds {v!r}; prescribed: {want}"[:300],
+             "source": src_of(handler), "path": i, "orm": bkey, "witness": {"backend": bkey}}
+        if not ok:
+            r["solver_output"] = r["reason"]
+        out.append(r)
+    if n_ret == 0:
+        out.append({"name": name, "clause": "cover", "status": "undecided", "seconds": 0.0, "selfcheck_failed": True, "reason": "no returning path"})
+    return out
+
+
 SCRIPT = r'''
 FILTERS = __FILTERS__
 bkey = __BKEY__
@@ -249,6 +366,8 @@ def run_family(facts, fam, tier):
                  "reason": "F(attr) without the owner's lookup is rejected" if good else "canary NOT refuted"}]
     if fam.startswith("path["):
         return run_path(facts, fam[5:-1], tier)
+    if fam == "lambda[sa_orm]":
+        return run_lambda_sa(facts, tier)
     if fam.startswith("bounded.semantics["):
         return bounded(fam[len("bounded.semantics["):-1], tier)
     raise ValueError(fam)
@@ -276,8 +395,9 @@ def evidence(facts, results):
              "case_samples": [x for r in b for x in r.get("case_samples", [])][:6]}
     return {"coverage_extra": extra, "trusted_base": ["pyvc symbolic executor and Python semantics of DESIGN section 4", "z3 5.1.0",
                              "uninterpreted-constructor model of Django / SQLAlchemy calls (DESIGN 4.8)"],
-            "assumptions": ["visit_CollectionLambda of both back ends is out of reach of the symbolic executor (model-meta / relationship-inspection loops, "
-                            "sub-visitor instantiation): bounded family only",
+            "assumptions": ["Django's visit_CollectionLambda is out of reach of the symbolic executor (model-meta loops in reverse_relationship, introspection "
+                            "of Django expression objects in _attempt_keywordify): bounded family only",
+                            "relationship.any(criterion) is EXISTS over the related rows of the outer row (SQLAlchemy's documented behaviour)",
                             "join kind, join promotion under `or`, EXISTS correlation and NULL handling are decided by the ORMs' compilers and SQLite: bounded "
                             "family only (labelled, never counted); mismatches are recorded findings",
                             "Django's F('a__b') spans the relation a; SQLAlchemy's inspect(rel).property.entity.class_ is the related class (documented behaviour)",
